@@ -74,16 +74,37 @@ package momentum
 //@ use rsiS_range(closings, r.Rma.Period, _)
 //@ ensures[C15] "range" forall k :: 0 <= k && k < len(result) && rmaS(lossS(closings), r.Rma.Period, k) < 0 ==> 0 <= result[k] && result[k] <= 100
 
+// Stochastic oscillator: K = (close - lowest low) / (highest high - lowest low) * 100 over the window ending at the
+// bar, D = SMA of K. stochok: the bar is valid and the window is not degenerate (K's denominator is not zero).
+//@ stream stochKS(h stream, l stream, c stream, P int)[j] = (c[j + P - 1] - wminS(l, j, j + P)) / (wmaxS(h, j, j + P) - wminS(l, j, j + P)) * 100
+//@ stream stochDS(h stream, l stream, c stream, P int, Q int)[k] = (psum(stochKS(h, l, c, P), k + Q) - psum(stochKS(h, l, c, P), k)) / Q
+//@ macro stochok(h, l, c, P, j) = barok(h, l, c, j + P - 1) && wminS(l, j, j + P) < wmaxS(h, j, j + P)
+//@ lemma stochK_range(h stream, l stream, c stream, P int, j int)
+//@ requires[C15] P >= 1 && stochok(h, l, c, P, j)
+//@ ensures[C15] 0 <= stochKS(h, l, c, P)[j] && stochKS(h, l, c, P)[j] <= 100
+//@ use wmax_ge(h, j, j + P, j + P - 1)
+//@ use wmin_le(l, j, j + P, j + P - 1)
+//@ lemma stochD_range(h stream, l stream, c stream, P int, Q int, k int)
+//@ requires[C15] P >= 1 && Q >= 1 && k >= 0 && (forall j :: k <= j && j < k + Q ==> stochok(h, l, c, P, j))
+//@ ensures[C15] 0 <= stochDS(h, l, c, P, Q)[k] && stochDS(h, l, c, P, Q)[k] <= 100
+//@ use stochK_range(h, l, c, P, _)
+//@ use psum_window_bounds(stochKS(h, l, c, P), k, k + Q, 0, 100)
+//@ use div_bounds(psum(stochKS(h, l, c, P), k + Q) - psum(stochKS(h, l, c, P), k), Q, 0, 100)
 //@ func StochasticOscillator.Compute
 //@ requires s.Max.Period >= 1 && s.Min.Period == s.Max.Period && s.Sma.Period >= 1 && consumed(highs) == 0 && consumed(lows) == 0 && consumed(closings) == 0 && len(highs) == len(lows) && len(highs) == len(closings)
 //@ ensures[C02] len(result0) == max(0, len(highs) - (s.IdlePeriod())) && len(result1) == max(0, len(highs) - (s.IdlePeriod()))
 //@ ensures[C03] consumed(highs) == len(highs) && consumed(lows) == len(lows) && consumed(closings) == len(closings) && closed(result0) && closed(result1)
 //@ ensures[C04] forall kk :: 0 <= kk && kk < len(result0) ==> hor(result0, kk) <= max(hor(highs, kk + (s.IdlePeriod())), max(hor(lows, kk + (s.IdlePeriod())), hor(closings, kk + (s.IdlePeriod()))))
 //@ ensures[C04] forall kk :: 0 <= kk && kk < len(result1) ==> hor(result1, kk) <= max(hor(highs, kk + (s.IdlePeriod())), max(hor(lows, kk + (s.IdlePeriod())), hor(closings, kk + (s.IdlePeriod()))))
-//@ guarantees[C01] "k-formula" forall j :: 0 <= j && j < len(kSplice[0]) ==> kSplice[0][j] == (closings[j + s.Min.Period - 1] - wminS(lows, j, j + s.Min.Period)) / (wmaxS(highs, j, j + s.Min.Period) - wminS(lows, j, j + s.Min.Period)) * 100
-//@ guarantees[C01] "k-aligned" forall k :: 0 <= k && k < len(result0) ==> result0[k] == kSplice[0][k + s.Sma.Period - 1]
-//@ guarantees[C01] "d-formula" forall k :: 0 <= k && k < len(result1) ==> result1[k] == (psum(kSplice[0], k + s.Sma.Period) - psum(kSplice[0], k)) / s.Sma.Period
-//@ guarantees[C15] "k-range" forall j :: 0 <= j && j < len(kSplice[0]) && lows[j + s.Min.Period - 1] <= closings[j + s.Min.Period - 1] && closings[j + s.Min.Period - 1] <= highs[j + s.Min.Period - 1] && wminS(lows, j, j + s.Min.Period) < wmaxS(highs, j, j + s.Min.Period) ==> 0 <= kSplice[0][j] && kSplice[0][j] <= 100
+//@ step[C01,C15] "k-formula" forall j :: 0 <= j && j < len(kSplice[0]) ==> kSplice[0][j] == stochKS(highs, lows, closings, s.Min.Period)[j]
+//@ ensures[C01] "k" forall k :: 0 <= k && k < len(result0) ==> result0[k] == stochKS(highs, lows, closings, s.Min.Period)[k + s.Sma.Period - 1]
+//@ use psum_cong(kSplice[0], stochKS(highs, lows, closings, s.Min.Period), _)
+//@ step[C01,C15] "d-formula" forall k :: 0 <= k && k < len(result1) ==> result1[k] == stochDS(highs, lows, closings, s.Min.Period, s.Sma.Period)[k]
+//@ ensures[C01] "d" forall k :: 0 <= k && k < len(result1) ==> result1[k] == stochDS(highs, lows, closings, s.Min.Period, s.Sma.Period)[k]
+//@ use stochK_range(highs, lows, closings, s.Min.Period, _)
+//@ ensures[C15] "k-range" forall k :: 0 <= k && k < len(result0) && stochok(highs, lows, closings, s.Min.Period, k + s.Sma.Period - 1) ==> 0 <= result0[k] && result0[k] <= 100
+//@ use stochD_range(highs, lows, closings, s.Min.Period, s.Sma.Period, _)
+//@ ensures[C15] "d-range" forall k :: 0 <= k && k < len(result1) && (forall j :: k <= j && j < k + s.Sma.Period ==> stochok(highs, lows, closings, s.Min.Period, j)) ==> 0 <= result1[k] && result1[k] <= 100
 
 //@ func StochasticRsi.Compute
 //@ requires s.Rsi.Rma.Period >= 1 && s.Min.Period >= 1 && s.Max.Period == s.Min.Period && consumed(closings) == 0
